@@ -371,7 +371,22 @@ func (fc *fctx) jsonUnmarshal(cc *ssa.CallCommon, pos token.Pos) []*Val {
 			tr.storeTag(up.addr, up.f.typ, fc.name("ju", nv), up.tag)
 		}
 		// decoded pointers / slices / maps are fresh objects
+		allocBefore := tr.cur.get(u, "ALLOC")
 		tr.bumpAllocUnknown()
+		allocAfter := tr.cur.get(u, "ALLOC")
+		u.decl("specfn:jEmptyObj", "(declare-fun jEmptyObj (JV) Bool)")
+		for _, up := range upds {
+			present := and("(> (oCnt "+J+" "+smtString(up.f.name)+") 0)", not(eq("(oVal "+J+" "+smtString(up.f.name)+")", "jNull")))
+			dec, _ := tr.decFn(up.f.typ)
+			dv := "(" + dec + " (oVal " + J + " " + smtString(up.f.name) + "))"
+			switch up.f.typ.Underlying().(type) {
+			case *types.Map:
+				tr.assume(implies(and(okc, present), and("(>= "+dv+" "+allocBefore+")", "(< "+dv+" "+allocAfter+")", eq("(obase "+dv+")", dv),
+					eq(eq("(select "+tr.cur.get(u, "MLen")+" "+dv+")", "0"), "(jEmptyObj (oVal "+J+" "+smtString(up.f.name)+"))"))))
+			case *types.Pointer:
+				tr.assume(implies(and(okc, present), and("(>= "+dv+" "+allocBefore+")", "(< "+dv+" "+allocAfter+")", eq("(obase "+dv+")", dv))))
+			}
+		}
 		return []*Val{errv}
 	}
 	if mt, ok := base.Underlying().(*types.Map); ok && u.sortOf(mt.Key()) == "String" {
